@@ -455,7 +455,7 @@ def _planted(ur):
 
 # re-register the planner properties with an additional source-level (e2e) part
 for _name, _kinds, _rule in [
-        ("C05", {"dup": "multi:", "dupset": "multi:", "duparg": "multi:"}, "two sources for one type"),
+        ("C05", {"dup": "multi:", "dupset": "multi:", "duparg": "multi:", "dupunexp": "multi:"}, "two sources for one type"),
         ("C06", {"missing": ("noprov:", "bindmissing:"), "missingtwin": ("noprov:", "bindmissing:"), "missingform": ("noprov:", "bindmissing:")}, "a needed source removed"),
         ("C08", {"unused": "unused", "twinunused": "unusedprov:", "unusedtwin": "unusedprov:", "emptyinline": "unusedset:"}, "a superfluous direct item")]:
     _unit_nt = {"C05": _nt_dups, "C06": _nt_missing, "C08": _nt_unused}[_name]
@@ -471,7 +471,10 @@ for _name, _kinds, _rule in [
                                       "max_structs": 9, "min_structs": 6})]
                       # the other form of a binding's concrete type, with the marker functions dot-imported or renamed
                       + ([("w", {"plant": ["missingform", "missing"], "units": [1, 2], "p_twin": 0.0, "plant_p": 0.8,
-                                 "p_wire_import_forms": 0.8})] if _name == "C06" else []), _pairs_plan, set(), _planted,
+                                 "p_wire_import_forms": 0.8})] if _name == "C06" else [])
+                      # an unexported provider in a library's set against a second source in the importing wire.Build
+                      + ([("u", {"plant": ["dupunexp"], "units": [1, 2], "p_twin": 0.0, "plant_p": 1.0, "p_lib_structs": 0.9, "p_func": 0.85,
+                                 "min_structs": 5, "max_structs": 9})] if _name == "C05" else []), _pairs_plan, set(), _planted,
                        n_quick=60, n_thorough=600, build=False, runit=False, extra=_planted_oracle(_kinds))])
 
 register("C07",
